@@ -20,21 +20,27 @@ TERMINAL = {"set_result", "set_exception", "set_exception_info", "cancel"}
 
 
 def cancelling_flags(ctx):
-    """fields of _Future set True around the subclass veto inside cancel() and reset afterwards"""
-    base = ctx.prog.cls("_Future")
+    """fields of the future base class set True around the subclass veto inside cancel() and reset afterwards
+    (cancel() is looked at with the base class's own helpers inlined)"""
+    P = roles.proto(ctx)
+    base = P.fut
     cancel = base.methods.get("cancel")
     out = set()
     if cancel is None:
         return out
-    ps, it = ctx.paths(cancel, base, depth=0)
+    ownf = set(m.key for m in base.methods.values())
+    overridden = set(n for c in ctx.prog.subclasses(base, strict=True) for n in c.methods)
+    ps, it = ctx.paths(cancel, base, depth=3, inline=lambda callee, ev, path: callee.key in ownf and callee.name not in overridden and not roles.is_dispatch(callee))
     bad = set()
+    writers = set([cancel.key])
     for p in ps:
-        st = [(e.d["target"][2], e.d["value"]) for e in p.evs("store") if q.self_field(e.d["target"])]
-        names = set(n for n, v in st)
+        st = [(e.d["target"][2], e.d["value"], e) for e in p.evs("store") if q.self_field(e.d["target"])]
+        names = set(n for n, v, e in st)
         for n in names:
-            vals = [v for m, v in st if m == n]
+            vals = [v for m, v, e in st if m == n]
             if vals and vals[0] == ("const", True) and vals[-1] == ("const", False):
                 out.add(n)
+                writers.update(e.fn.key for m, v, e in st if m == n)
             elif ("const", True) in vals:
                 # some exit of cancel() (return, veto or exception) leaves the flag set: it is not a reliable
                 # 'cancel in progress' marker
@@ -42,7 +48,7 @@ def cancelling_flags(ctx):
     out -= bad
     # the flag must not be written anywhere else (except its initialisation to False)
     for fi in ctx.prog.functions.values():
-        if fi is cancel or fi.parent is not None:
+        if fi.key in writers or fi.parent is not None:
             continue
         try:
             ps, it = ctx.paths(fi, fi.owner, depth=0)
